@@ -125,7 +125,8 @@ def conclude(prop, module, tier, seed, stats, t0, pool, *, assumptions, rule, ex
         configurations=len(stats),
         distinct_outcomes=sum(len(cs.outcomes) for cs in stats),
         capped_configurations=[dict(harness=cs.harness, cfg=cs.cfg, executions=cs.execs,
-                                    unexplored_prefixes=getattr(cs, 'unexplored_prefixes', None)) for cs in capped],
+                                    unexplored_prefixes=getattr(cs, 'unexplored_prefixes', None),
+                                    cap_reason=getattr(cs, 'cap_reason', 'execution cap')) for cs in capped],
         per_configuration=[cs.summary() for cs in stats],
         known_findings_reported=reported_known,
         explanation=explanation or ('states = nodes of the schedule/choice tree visited (scheduling points of the real code under the '
